@@ -611,6 +611,30 @@ func oracleC13(e *Env, i int, op *Op, obs string) *Violation {
 		}
 		return false
 	}
+	// the live objects a query ranges over are those of the image: what the handle enumerates (and
+	// says about partition types) is what an independent decoder reads from the bytes written
+	if !e.desync {
+		if _, ds, err := decodeRaw(e.storeBytes()); err == nil {
+			k := 0
+			for _, d := range ds {
+				if !d.Used {
+					continue
+				}
+				if k >= len(all) || all[k].ID() != d.ID {
+					return &Violation{Prop: "C13", Key: "C13:handle-differs-from-file", What: fmt.Sprintf("the handle enumerates other objects than the file holds (position %d: file has object %d)", k, d.ID), Op: i}
+				}
+				if d.DT == 0x4004 && len(d.Extra) >= 8 {
+					if _, pt, _, err := all[k].PartitionMetadata(); err == nil && int32(pt) != le32(d.Extra[4:]) {
+						return &Violation{Prop: "C13", Key: "C13:handle-differs-from-file", What: fmt.Sprintf("partition %d: the handle says type %d, the file says %d", d.ID, pt, le32(d.Extra[4:])), Op: i}
+					}
+				}
+				k++
+			}
+			if k != len(all) {
+				return &Violation{Prop: "C13", Key: "C13:handle-differs-from-file", What: fmt.Sprintf("the handle enumerates %d objects, the file holds %d", len(all), k), Op: i}
+			}
+		}
+	}
 	// a caller's selector function that answers with an error of its own on some live object: what
 	// the query then returns is not something C13 settles (the correspondence with the model
 	// covers it); the oracle speaks only about functions that are quiet on this image
